@@ -422,6 +422,29 @@ Record iflags := mkIF { if_minb : Z; if_maxb : Z; if_var : Z * Z }.
 (* _flags=None: variance (0,0) unless the graph has one, bounds (0, sys.maxsize) *)
 Definition no_flags : iflags := mkIF 0 (2 ^ 63 - 1) (0, 0).
 
+(* the Task of every job in breadth-first order (job_to_task_mapping, keyed by job NAME) *)
+Definition build_tasks (jg : jobgraph) (release d1 : etime) (order : list Z) (next : Z)
+  : result (list (Z * task) * list task * Z) :=
+  fold_left (fun acc i => bind acc (fun st =>
+          let '(m, tasks, nid) := st in
+          match find_job i (jg_jobs jg) with
+          | None => Err 5
+          | Some j =>
+              let t := mkTask nid i (j_name j) (if g_is_source (jg_graph jg) i then release else mkET (-1) U_US) d1 (j_prob j) in
+              Ok (name_set (j_name j) t m, tasks ++ [t], nid + 1)
+          end)) order (Ok ([], [], next)).
+Definition name_of (jg : jobgraph) (i : Z) : Z := match find_job i (jg_jobs jg) with Some j => j_name j | None => -1 end.
+(* task_graph_mapping: {task(parent): [task(child) ...]} over self._graph.items() *)
+Definition build_mapping (jg : jobgraph) (m : list (Z * task)) : result adj :=
+  fold_left (fun acc kv => bind acc (fun mp =>
+          match name_lookup (name_of jg (fst kv)) m with
+          | None => Err 5
+          | Some pt =>
+              bind (fold_left (fun acc' c => bind acc' (fun cs =>
+                      match name_lookup (name_of jg c) m with None => Err 5 | Some ct' => Ok (cs ++ [t_id ct']) end))
+                    (snd kv) (Ok [])) (fun cs => Ok (map_set (t_id pt) cs mp))
+          end)) (g_ch (jg_graph jg)) (Ok []).
+
 (* _generate_task_graph; [next] is the first unused task id; two uniform draws are consumed *)
 Definition take_draw (us_ : list fl) : result (fl * list fl) :=
   match us_ with u :: r => Ok (u, r) | [] => Err 90 end.
@@ -435,24 +458,9 @@ Definition generate_task_graph (jg : jobgraph) (fl_ : iflags) (release : etime) 
   bind (take_draw us_) (fun ud1 => let '(u1, us1) := ud1 in
   bind (et_add release (et_fuzz ct u1 (if_minb fl_) (if_maxb fl_))) (fun d1 =>
   bind (g_bfs (jg_graph jg)) (fun order =>
-  bind (fold_left (fun acc i => bind acc (fun st =>
-          let '(m, tasks, nid) := st in
-          match find_job i (jg_jobs jg) with
-          | None => Err 5
-          | Some j =>
-              let t := mkTask nid i (j_name j) (if g_is_source (jg_graph jg) i then release else mkET (-1) U_US) d1 (j_prob j) in
-              Ok (name_set (j_name j) t m, tasks ++ [t], nid + 1)
-          end)) order (Ok ([], [], next))) (fun st =>
+  bind (build_tasks jg release d1 order next) (fun st =>
   let '(m, created, nid) := st in
-  let name_of i := match find_job i (jg_jobs jg) with Some j => j_name j | None => -1 end in
-  bind (fold_left (fun acc kv => bind acc (fun mp =>
-          match name_lookup (name_of (fst kv)) m with
-          | None => Err 5
-          | Some pt =>
-              bind (fold_left (fun acc' c => bind acc' (fun cs =>
-                      match name_lookup (name_of c) m with None => Err 5 | Some ct' => Ok (cs ++ [t_id ct']) end))
-                    (snd kv) (Ok [])) (fun cs => Ok (map_set (t_id pt) cs mp))
-          end)) (g_ch (jg_graph jg)) (Ok [])) (fun mapping =>
+  bind (build_mapping jg m) (fun mapping =>
   bind (graph_of_mapping mapping) (fun tgg =>
   bind (completion_time jg) (fun ct2 =>
   bind (take_draw us1) (fun ud2 => let '(u2, us2) := ud2 in
@@ -857,3 +865,19 @@ Fixpoint nadj_get (k : Z) (l : nadj) : option (list Z) :=
 Definition mon_iso (jobs tasks : nadj) : bool :=
   (length jobs =? length tasks)%nat && nodup_b (map fst tasks) &&
   forallb (fun kv => match nadj_get (fst kv) tasks with Some cs => zlist_eqb cs (snd kv) | None => false end) jobs.
+
+(* what the code ASKS of the random sources (so that a changed request is seen, not only a changed use):
+   rng.poisson(1/rate, ..), rng.gamma(1/coef, coef/rate, ..), uniform(t*|minv|/100.0, t*|maxv|/100.0) *)
+Definition rng_request (p : policy) : val :=
+  let one := mkF 1 0 in
+  match p_type p with
+  | POISSON => vres vfl (fl_div one (p_rate p))
+  | GAMMA | FIXED_AND_GAMMA =>
+      vres (fun x => x) (bind (fl_div one (p_coef p)) (fun a => bind (fl_div (p_coef p) (p_rate p)) (fun b => Ok (L [vfl a; vfl b]))))
+  | _ => L []
+  end.
+Definition uniform_request (c : Z * Z * Z) : val :=
+  let '(t, minv, maxv) := c in
+  let hundred := mkF 100 0 in
+  vres (fun x => x) (bind (fl_div (fl_of_Z (t * Z.abs minv)) hundred) (fun a =>
+                     bind (fl_div (fl_of_Z (t * Z.abs maxv)) hundred) (fun b => Ok (L [vfl a; vfl b])))).
